@@ -3,7 +3,7 @@ over them.  Rules are phrased on these sequences; they are computed from the CFG
 facts (resolved callees, field identities), never from source text."""
 import re
 
-from . import paths, tables
+from . import canon, paths, tables
 from .build import AnalysisBroken
 
 
@@ -41,7 +41,13 @@ class Sel:
     """
 
     def __init__(self, calls=(), fields=(), conds=None, locks=True, indirect=False, rets=False,
-                 decls=(), assigns=(), derefs=()):
+                 decls=(), assigns=(), derefs=(), canon=False, reads=()):
+        # canon=True: conditions (and non-constant stored values) are rendered by abtverif.canon:
+        # independent of local names and of the polarity of the test; `conds` then sees that label
+        self.canon = canon
+        # reads: fields whose reads are recorded as ('rd', 'Rec::field', atomic wrapper or None, nid)
+        self.reads = set(reads)
+        self.want_loads = bool(self.reads)
         self.calls = calls
         self.fields = set(fields)
         self.conds = conds
@@ -81,8 +87,17 @@ class Sel:
         nd = F.nodes[nid]
         k = nd.get("k")
         out = []
+        if k == "load" and self.reads:
+            fo = F.field_of(nd["e"]) if F.nodes[nd["e"]].get("k") == "mem" else None
+            if fo and (fo[1] in self.reads or "%s::%s" % fo in self.reads):
+                return ("rd", "%s::%s" % fo, None, nid)
+            return None
         if k == "call":
             fn = nd.get("fn")
+            if fn and self.reads and fn.startswith("ABTD_atomic_") and "_load_" in fn and nd["a"]:
+                fo = F.field_of(nd["a"][0])
+                if fo and (fo[1] in self.reads or "%s::%s" % fo in self.reads):
+                    return ("rd", "%s::%s" % fo, fn, nid)
             if fn and self.locks:
                 if fn in tables.LOCK_ACQUIRE:
                     return ("acq", lockpath(F, nd["a"][tables.LOCK_ACQUIRE[fn]]), nid)
@@ -100,7 +115,7 @@ class Sel:
                     if len(nd["a"]) > 1:
                         val = ctx.value(nd["a"][-1])
                         if val is None:
-                            val = F.render(nd["a"][-1])
+                            val = self._txt(F, nd["a"][-1])
                     return ("ast", fn, p, val, nid)
             if fn and self._want_call(fn):
                 return ("call", fn, argpaths(F, nd), nid)
@@ -108,16 +123,16 @@ class Sel:
                 return ("icall", F.fieldpath(nd["fe"]), argpaths(F, nd), nid)
         elif k == "bin" and nd.get("asg") and self.assigns and nd["op"] == "=" and \
                 F.nodes[F.strip(nd["lh"])].get("k") == "ref" and F.nodes[F.strip(nd["lh"])]["n"] in self.assigns:
-            return ("decl", F.nodes[F.strip(nd["lh"])]["n"], F.render(nd["rh"]), nid)
+            return ("decl", F.nodes[F.strip(nd["lh"])]["n"], self._txt(F, nd["rh"]), nid)
         elif k == "bin" and nd.get("asg") and self.derefs and self._deref_of(F, nd["lh"]):
             v = ctx.value(nd["rh"])
-            return ("dst", self._deref_of(F, nd["lh"]), v if v is not None else F.render(nd["rh"]), nid)
+            return ("dst", self._deref_of(F, nd["lh"]), v if v is not None else self._txt(F, nd["rh"]), nid)
         elif k == "bin" and nd.get("asg") and self.fields:
             p = self._want_field(F, nd["lh"])
             if p:
                 v = ctx.value(nd["rh"])
                 if v is None:
-                    v = F.render(nd["rh"])
+                    v = self._txt(F, nd["rh"])
                 return ("st", p, nd["op"], v, nid)
         elif k == "un" and self.fields and nd["op"] in ("post++", "post--", "pre++", "pre--"):
             p = self._want_field(F, nd["e"])
@@ -126,15 +141,30 @@ class Sel:
         elif k == "decl" and self.decls:
             for v in nd["vars"]:
                 if v["n"] in self.decls:
-                    out.append(("decl", v["n"], F.render(v["init"]) if "init" in v else None, nid))
+                    out.append(("decl", v["n"], self._txt(F, v["init"]) if "init" in v else None, nid))
             return out or None
         elif k == "ret" and self.rets:
             return ("ret", ctx.value(nd["e"]) if "e" in nd else None, nid)
         return None
 
+    def _txt(self, F, i):
+        return canon.expr(F, i) if self.canon else F.render(i)
+
     def edge_select(self, F, bid, key, truth, ctx):
         if self.conds is None or ctx.cond_node is None:
             return None
+        if self.canon:
+            text, flip = canon.cond(F, ctx.cond_node)
+            val = bool(ctx.cond_val) != flip
+            try:
+                r = self.conds(text, F, ctx.cond_node)
+            except TypeError:
+                r = self.conds(text)
+            if isinstance(r, tuple):     # (label, flip): the rule's own label with its own polarity
+                return ("if", r[0], val != bool(r[1]), bid)
+            if isinstance(r, str):
+                return ("if", r, val, bid)
+            return ("if", text, val, bid) if r else None
         text = F.render(ctx.cond_node)
         try:
             r = self.conds(text, F, ctx.cond_node)
@@ -224,6 +254,8 @@ def show(seq):
             out.append("*%s = %s" % (t[1], t[2]))
         elif t[0] == "ret":
             out.append("return %s" % t[1])
+        elif t[0] == "rd":
+            out.append("read %s%s" % (t[1], " (%s)" % t[2] if t[2] else ""))
         else:
             out.append(str(t))
     return " ; ".join(out)
